@@ -5,9 +5,9 @@ from refmodels import cia301 as S301
 
 CLAIMED = True
 
-U8, U16, U32, U64, I32, I16, I64 = 0x05, 0x06, 0x07, 0x1B, 0x04, 0x03, 0x15
-WIDTH = {U8: 8, U16: 16, U32: 32, U64: 64, I32: 32, I16: 16, I64: 64}
-SIGNED = {I32, I16, I64}
+U8, U16, U32, U64, I32, I16, I64, I8 = 0x05, 0x06, 0x07, 0x1B, 0x04, 0x03, 0x15, 0x02
+WIDTH = {U8: 8, U16: 16, U32: 32, U64: 64, I32: 32, I16: 16, I64: 64, I8: 8}
+SIGNED = {I32, I16, I64, I8}
 
 
 class SdoCarrier:
@@ -61,7 +61,43 @@ class PdoCarrier:
         return sx.items(self.map.data)[1:1 + WIDTH[self.dtype] // 8]
 
 
-CARRIERS = {"sdo": SdoCarrier, "pdo": PdoCarrier}
+class PdoUnalignedCarrier:
+    """PdoVariable mapped behind a 3-bit field (so it is not byte aligned): the raw value lives in bits
+    3..3+W of PdoMap.data."""
+    SHIFT = 3
+
+    def __init__(self, dtype, setup):
+        LocalNode = sx.mod("canopen.node.local").LocalNode
+        od = C.typed_od(with_pdo=True)
+        self.odvar = C.mkvar("target", 0x3000, 0, dtype, "rw")
+        setup(self.odvar)
+        od.add_object(self.odvar)
+        self.node = LocalNode(2, od)
+        m = self.node.tpdo[1]
+        m.clear()
+        m.add_variable(C.TYPE_INDEX[U8], 0, self.SHIFT)
+        self.var = m.add_variable(0x3000)
+        self.map = m
+        self.dtype = dtype
+        assert self.SHIFT + WIDTH[dtype] <= 64
+
+    def set_raw_bytes(self, items):
+        w = WIDTH[self.dtype]
+        v = sx.le_int(items, False)
+        n = len(self.map.data)
+        old = sx.le_int(sx.items(self.map.data), False)
+        new = (old & ~(((1 << w) - 1) << self.SHIFT)) | (v << self.SHIFT)
+        for i in range(n):
+            self.map.data[i] = sx.byte_of(new, i)
+
+    def raw_bytes(self):
+        w = WIDTH[self.dtype]
+        fi = sx.le_int(sx.items(self.map.data), False)
+        v = (fi >> self.SHIFT) & ((1 << w) - 1)
+        return [sx.byte_of(v, i) for i in range(w // 8)]
+
+
+CARRIERS = {"sdo": SdoCarrier, "pdo": PdoCarrier, "pdou": PdoUnalignedCarrier}
 
 
 def _fresh_raw(dtype):
@@ -130,7 +166,9 @@ def desc(carrier, dtype, m):
     for i in range(m):
         for j in range(i):
             sx.assume(keys[i] != keys[j])
-    texts = ["state %d" % i for i in range(m)]
+    # names that differ only in case or surrounding blanks are different descriptions
+    tricky = ["mW", "MW", " MW", "mW ", "Speed Mode", "speed mode", "Speed  Mode", "0", "1", "ON", "on", "Off"]
+    texts = (tricky + ["state %d" % i for i in range(m)])[:m]
 
     def setup(v):
         for k, t in zip(keys, texts):
@@ -145,11 +183,13 @@ def desc(carrier, dtype, m):
     sx.observe("new", new)
     sx.prove(new == keys[i], "description writes the value it names", tag + "/write")
     # unknown description is rejected
-    try:
-        car.var.desc = "no such text"
-        sx.fail("unknown description accepted", tag + "/unknown-accepted")
-    except ValueError:
-        pass
+    for unknown in ["no such text"] + [t for t in (texts[0].upper() + "x", texts[0].swapcase(), texts[0] + " ", " " + texts[0],
+                                                   texts[-1].lower(), texts[-1].upper()) if t not in texts]:
+        try:
+            car.var.desc = unknown
+            sx.fail("unknown description %r accepted" % unknown, tag + "/unknown-accepted")
+        except ValueError:
+            pass
     # read for an arbitrary raw value
     rb, raw = _fresh_raw(dtype)
     car.set_raw_bytes(sx.items(rb))
@@ -171,9 +211,10 @@ def phys(carrier, factor, kind, R=31):
     step for the float64 quotient, stated in DESIGN.md).  The scaling kernel is decided at unit
     level in the FP theory; the accessor/carrier path is then shown to store exactly that integer
     and to read back raw*factor."""
-    car = CARRIERS[carrier](I64, lambda v: setattr(v, "factor", factor))
+    big = I32 if carrier == "pdou" else I64          # the unaligned PDO carrier has 61 bits of room
+    car = CARRIERS[carrier](big, lambda v: setattr(v, "factor", factor))
     odv = car.odvar
-    car.set_raw_bytes([0] * 8)
+    car.set_raw_bytes([0] * (WIDTH[big] // 8))
     tag = "C20/phys/%s/%s/%r" % (carrier, kind, factor)
     af = abs(float(factor))
     lim = (1 << R) - 2
@@ -224,12 +265,13 @@ def phys_large(factor):
 
 def phys_samples(carrier, factor):
     """magnitudes the FP queries do not reach: concrete raw values and requests for this factor"""
-    car = CARRIERS[carrier](I64, lambda v: setattr(v, "factor", factor))
+    big = I32 if carrier == "pdou" else I64
+    car = CARRIERS[carrier](big, lambda v: setattr(v, "factor", factor))
     af = abs(factor)
     tol = af * (0.5 + 2.0 ** -20)
     tag = "C20/phys-samples/%s/%r" % (carrier, factor)
-    for raw in (0, 1, -1, 2, 3, 7, -12, 100, 999, 12345, -54321, 2 ** 20 + 1, 2 ** 31 - 1, -(2 ** 31)):
-        car.set_raw_bytes([sx.byte_of(raw, i) for i in range(8)])
+    for raw in (0, 1, -1, 2, 3, 7, -12, 100, 999, 12345, -54321, 2 ** 20 + 1, 2 ** 31 - 2, -(2 ** 31)):
+        car.set_raw_bytes([sx.byte_of(raw, i) for i in range(WIDTH[big] // 8)])
         back = car.var.phys
         sx.prove(back == raw * factor, "phys is raw * factor (sample %d)" % raw, tag + "/read")
         x = raw * factor + 0.25 * factor
@@ -270,6 +312,14 @@ def jobs(tier):
         for dtype in (U8, U16, I32):
             for m in ((1, 3) if tier == "quick" else (1, 2, 3, 8, 20)):
                 out.append(dict(func="desc", params=dict(carrier=carrier, dtype=dtype, m=m), weight=m))
+    # the same views over a PDO variable that is not byte aligned (signed types: the most negative value matters)
+    for dtype in (I8, I16, I32, U16) if tier == "quick" else (I8, I16, I32, U8, U16, U32):
+        for sp in (("slice", "name") if tier == "quick" else ("int", "list", "slice", "slice1", "name")):
+            out.append(dict(func="bits", params=dict(carrier="pdou", dtype=dtype, spelling=sp), weight=WIDTH[dtype]))
+        out.append(dict(func="desc", params=dict(carrier="pdou", dtype=dtype, m=3), weight=3))
+    out.append(dict(func="phys", params=dict(carrier="pdou", factor=0.5, kind="float", R=31), weight=200,
+                    limits=dict(fast_ms=300)))
+    out.append(dict(func="phys_samples", params=dict(carrier="pdou", factor=0.1)))
     for f, kind, R in (PHYS_Q if tier == "quick" else PHYS_T):
         for carrier in (("sdo",) if tier == "quick" and R < 31 else ("sdo", "pdo")):
             out.append(dict(func="phys", params=dict(carrier=carrier, factor=f, kind=kind, R=R),
